@@ -14,6 +14,7 @@ UNIVERSES = {
     "items5": ("MC_DocGen.tla", "DocGen_items5.cfg", None, None),
     "empty5": ("MC_DocGen.tla", "DocGen_empty5.cfg", None, None),
     "emptyq5": ("MC_DocGen.tla", "DocGen_emptyq5.cfg", None, None),
+    "quotes6": ("MC_DocGen.tla", "DocGen_quotes6.cfg", None, None),
     "items5q": ("MC_DocGen.tla", "DocGen_items5q.cfg", None, None),
     "heads4": ("MC_DocGen.tla", "DocGen_heads4.cfg", None, None),
     "heads5": ("MC_DocGen.tla", "DocGen_heads5.cfg", None, None),
@@ -25,13 +26,13 @@ UNIVERSES = {
 }
 
 PLAN = {
-    ("C01", "quick"): ["full3", "struct5", "heads4", "inline", "lists", "items5", "empty5", "emptyq5"],
-    ("C02", "quick"): ["full3", "struct5", "heads4", "inline", "lists", "items5", "empty5", "emptyq5"],
-    ("C07", "quick"): ["full3", "struct5", "heads5", "lists", "inline1", "items5", "empty5", "emptyq5"],
+    ("C01", "quick"): ["full3", "struct5", "heads4", "inline", "lists", "items5", "empty5", "emptyq5", "quotes6"],
+    ("C02", "quick"): ["full3", "struct5", "heads4", "inline", "lists", "items5", "empty5", "emptyq5", "quotes6"],
+    ("C07", "quick"): ["full3", "struct5", "heads5", "lists", "inline1", "items5", "empty5", "emptyq5", "quotes6"],
     ("C03", "quick"): ["full3", "struct4", "heads4", "inline1", "lists", "empty5", "emptyq5"],
-    ("C01", "thorough"): ["full4", "struct5", "heads5", "inline", "lists", "deep", "items5", "empty5", "emptyq5", "items5q"],
-    ("C02", "thorough"): ["full4", "struct5", "heads5", "inline", "lists", "deep", "items5", "empty5", "emptyq5", "items5q"],
-    ("C07", "thorough"): ["full4", "struct5", "heads6", "inline", "lists", "deep", "items5", "empty5", "emptyq5", "items5q"],
+    ("C01", "thorough"): ["full4", "struct5", "heads5", "inline", "lists", "deep", "items5", "empty5", "emptyq5", "quotes6", "items5q"],
+    ("C02", "thorough"): ["full4", "struct5", "heads5", "inline", "lists", "deep", "items5", "empty5", "emptyq5", "quotes6", "items5q"],
+    ("C07", "thorough"): ["full4", "struct5", "heads6", "inline", "lists", "deep", "items5", "empty5", "emptyq5", "quotes6", "items5q"],
     ("C03", "thorough"): ["full4", "struct5", "heads5", "inline", "lists", "deep", "empty5", "emptyq5", "items5"],
 }
 
@@ -39,7 +40,7 @@ PLAN = {
 def generate(res, work, name, tier):
     module, cfg, sim, depth = UNIVERSES[name]
     if sim:
-        sim = sim % (20000 if tier == "thorough" else 2000)
+        sim = sim % (8000 if tier == "thorough" else 2000)
     raw = os.path.join(work, "gen_%s.out" % name)
     r = tlc(module, cfg, os.path.join(work, "gen_" + name), workers=(1 if sim else 8), timeout=2400, simulate=sim, depth=depth,
             seed_=seed() if sim else None, heap="12g", out_file=raw)
@@ -77,7 +78,7 @@ def replay(work, name, vec, shards=10, exts=""):
             c += ["--ext", exts]
         cmds.append(c)
     stats = {"cases": 0, "rendered": 0, "render_rejects": 0, "events": 0}
-    for rc, out in parallel(cmds, 3000):
+    for rc, out in parallel(cmds, 6000):
         if rc != 0:
             raise ToolError("doc-replay failed (%s): %s" % (rc, out[-2000:]))
         last = [l for l in out.splitlines() if l.startswith("{")]
